@@ -331,7 +331,11 @@ impl App {
                 let mut adf = if self.import {
                     #[cfg(not(feature = "adhoccounting"))]
                     {
-                        serde_json::from_str(&input).expect("Old feature should work")
+                        let mut result: Adf =
+                            serde_json::from_str(&input).expect("Old feature should work");
+                        // the variable lists are not part of the export and need to be rebuilt too
+                        result.fix_import();
+                        result
                     }
                     #[cfg(feature = "adhoccounting")]
                     {
